@@ -9,7 +9,7 @@ use crate::{for_both, hx, Ctx, Tier};
 use blsful::*;
 use serde_json::json;
 
-pub const RULE: &str = "per honest tuple (key from E or random, message from the length classes, scheme, group; signed by the reference) the whole perturbation catalogue of the quantifier is applied: sig+kG (k=1,2,r-1), -sig, 2*sig, 3*sig, signature of another message, signature by another key; every single-bit flip of the message (exhaustive for the designated short-message tuple of each cell, 16 sampled flips otherwise), truncate by 1, extend by 0x00, replace by empty; pk of another key, pk+G, -pk; each other scheme label on the same point; VALID variants: (sig+Q)-Q, 2*(sig/2), decode(encode(sig)), key-sum with signature-sum over one message (valid in Basic/PoP, invalid in Aug). Each tuple is decided by Signature::verify, MultiSignature::verify and PublicKeyShare::verify and by the reference CoreVerify; library decision must equal the constructed expectation and the reference (expectation != reference is a harness error). Distinct by (suite,scheme,entry,pk,sig,msg); all tuples are non-trivial (both points decode, neither is the identity, the pairing equation decides).";
+pub const RULE: &str = "per honest tuple (key from E or random, message from the length classes, scheme, group; signed by the reference) the whole perturbation catalogue of the quantifier is applied: sig+kG (k=1,2,r-1), -sig, 2*sig, 3*sig, signature of another message, signature by another key; every single-bit flip of the message (exhaustive for the designated short-message tuple of each cell, 16 sampled flips otherwise), truncate by 1, extend by 0x00, replace by empty; pk of another key, pk+G, -pk; each other scheme label on the same point; VALID variants: (sig+Q)-Q, 2*(sig/2), decode(encode(sig)), key-sum with signature-sum over one message (valid in Basic/PoP, invalid in Aug). Each tuple is decided by Signature::verify, MultiSignature::verify and PublicKeyShare::verify and by the reference CoreVerify; library decision must equal the constructed expectation and the reference (expectation != reference is a harness error). History pass: around every invalid tuple the sequence honest, invalid, invalid, honest is asked through Signature::verify and must answer accept, reject, reject, accept (a decision may depend on the tuple only, not on what was asked before). Distinct by (suite,scheme,entry,pk,sig,msg); all tuples are non-trivial (both points decode, neither is the identity, the pairing equation decides).";
 
 pub fn run(ctx: &mut Ctx) {
     for_both!(run_suite, ctx);
@@ -148,6 +148,39 @@ fn one_tuple<C: Suite>(ctx: &mut Ctx, g: u64, scheme: Scheme, kname: &str, sk: &
     let sk_sum = *sk + other_sk;
     push("valid", "sum-key-signs".into(), true, scheme, pk.add(other_pk), refimpl::sign::<C::R>(scheme, &sk_sum, &msg), msg.clone());
 
+    // history pass: the decision is a function of the tuple alone. Around every INVALID tuple the
+    // honest one is asked (accept), the invalid one twice in a row (reject, reject), the honest one
+    // again (accept): a verdict carried over from the previous question, or from the first time
+    // the same question was asked, shows as a wrong answer in this sequence.
+    {
+        let hon_pk = PublicKey::<C>(lp::<C>(pk));
+        let hon_sig = wrap_sig::<C>(scheme, ls::<C>(sig));
+        let mut asked = 0u64;
+        for (kind, name, expect, t) in cases.iter() {
+            if *expect {
+                continue;
+            }
+            let lpk = PublicKey::<C>(lp::<C>(t.pk));
+            let lsig = wrap_sig::<C>(t.scheme, ls::<C>(t.sig));
+            let seq = ctx.guard("Signature::verify (history pass)", || json!({"variant":name}), || {
+                [
+                    hon_sig.verify(&hon_pk, &msg).is_ok(),
+                    lsig.verify(&lpk, &t.msg).is_ok(),
+                    lsig.verify(&lpk, &t.msg).is_ok(),
+                    hon_sig.verify(&hon_pk, &msg).is_ok(),
+                ]
+            });
+            let Some(seq) = seq else { continue };
+            asked += 4;
+            ctx.expect(seq == [true, false, false, true], &format!("C02/history-dependent/Signature::verify/{}/{}/{kind}", C::NAME, t.scheme.name()), || {
+                json!({"what":"sequence honest, invalid, invalid, honest must answer accept, reject, reject, accept","answers":seq.to_vec(),
+                       "suite":C::NAME,"scheme":t.scheme.name(),"variant":name,"kind":kind,"sk_class":kname,
+                       "honest":{"pk":hex::encode(pk.enc()),"sig":hex::encode(sig.enc()),"msg":hx(&msg),"scheme":scheme.name()},
+                       "invalid":{"pk":hex::encode(t.pk.enc()),"sig":hex::encode(t.sig.enc()),"msg":hx(&t.msg),"scheme":t.scheme.name()}})
+            });
+        }
+        ctx.count("history_pass_questions", asked);
+    }
     for (kind, name, expect, t) in cases {
         let pkb = t.pk.enc();
         let sgb = t.sig.enc();
